@@ -392,6 +392,8 @@ func runPipeCase(c *sup.Child, idx int, script bool, viol *int) {
 		pipePair(c, idx, rng, viol)
 	case idx%3 == 1 && idx%2 == 0:
 		pipeTriple(c, idx, rng, viol)
+	case idx%3 == 2 && idx%2 == 0:
+		pipeKilledWaiter(c, idx, rng, viol)
 	default:
 		pipeRandom(c, idx, rng, viol)
 	}
@@ -497,7 +499,7 @@ func pipeRandom(c *sup.Child, idx int, rng *rand.Rand, viol *int) {
 // awaitBodyOrPark: the task's body began, or a task goroutine is seen (twice) parked in the
 // mutex package below runner.runGo.
 func awaitBodyOrPark(p *pipeRun, id int) (string, string) {
-	consecutive := 0
+	consecutive, anyWait := 0, 0
 	for i := 0; i < 40000; i++ {
 		d := 20 * time.Microsecond << uint(min(i/40, 6))
 		select {
@@ -519,8 +521,48 @@ func awaitBodyOrPark(p *pipeRun, id int) (string, string) {
 		} else {
 			consecutive = 0
 		}
+		// a task goroutine that sits in some other wait (a channel, a select) on its way to the
+		// body in 1500 looks in a row is queued as well, wherever the runner makes it wait
+		if w, rawW := waitingBeforeBody(); w > 0 {
+			anyWait++
+			if anyWait >= 1500 {
+				select {
+				case <-p.begun[id]:
+					return "entered", ""
+				default:
+				}
+				return "parked", rawW
+			}
+		} else {
+			anyWait = 0
+		}
 	}
 	return "unknown", ""
+}
+
+// waitingBeforeBody counts task goroutines (runner.runGo) outside any body that are in a wait
+// state of any kind (sync primitive, channel operation, select).
+func waitingBeforeBody() (n int, raw string) {
+	var sb strings.Builder
+	for id, g := range dumpAll() {
+		if leakedRunGo[id] || !(syncWait[g.state] || parkedStates[g.state]) {
+			continue
+		}
+		isTask, inBody := false, false
+		for _, f := range g.frames {
+			if strings.Contains(f, runGoFrag) {
+				isTask = true
+			}
+			if strings.Contains(f, "selfsb.") || strings.Contains(f, "termexec.") {
+				inBody = true
+			}
+		}
+		if isTask && !inBody {
+			n++
+			sb.WriteString(g.raw + "\n\n")
+		}
+	}
+	return n, sb.String()
 }
 
 // pipePair: task A's body is gated inside; task B is submitted afterwards.
